@@ -149,6 +149,18 @@ def _do_inspect(target, what):
     elif what == 'exits':
         list(target.exit_jobs())
         list(target.entry_jobs())
+    elif what == 'debrief':
+        target.debrief()
+    elif what == 'list_safe':
+        target.list_safe()
+        target.list(details=True)
+    elif what == 'dot':
+        target.dot_format()     # may legitimately raise on some shapes
+    elif what == 'iterate':
+        list(target.iterate_jobs())
+        list(target.iterate_jobs(scan_schedulers=True))
+        len(target)
+        list(iter(target))
 
 
 class _NodeMixin:
